@@ -36,6 +36,7 @@ structure Inv (stop resume : Nat) (s : St) : Prop where
   cnt : s.c.current = s.open_.length + s.pending.length
   le : s.c.current ≤ stop
   acc : s.c.accepting = true → s.c.current < stop
+  high : s.c.accepting = false → s.c.current = stop ∨ resume < s.c.current
   noWait : s.c.accepting = true → s.waitq = []
   waitOpen : ∀ l ∈ s.waitq, l ∉ s.closed
   noLeak : s.leaked = 0
@@ -64,6 +65,7 @@ theorem attempt_inv {stop resume : Nat} (h : WF stop resume) (s : St) (l : Nat)
       · exact hi.cnt
       · exact hi.le
       · intro h'; simp [ha] at h'
+      · intro _; exact hi.high ha
       · intro h'; simp [ha] at h'
       · intro x hx
         simp only [List.mem_append, List.mem_singleton] at hx
@@ -86,6 +88,9 @@ theorem attempt_inv {stop resume : Nat} (h : WF stop resume) (s : St) (l : Nat)
       · intro h'
         have : s.c.current + 1 < s.c.stop := by simpa using h'
         show s.c.current + 1 < stop; omega
+      · intro h'
+        have : ¬ (s.c.current + 1 < s.c.stop) := by simpa using h'
+        left; show s.c.current + 1 = stop; omega
       · intro _; exact hi.noWait ha
       · exact hi.waitOpen
       · exact hi.noLeak
@@ -109,6 +114,9 @@ theorem release_inv {stop resume : Nat} (h : WF stop resume) (s : St)
   · show s.c.current - 1 = s.open_.length + s.pending.length; omega
   · show s.c.current - 1 ≤ stop; omega
   · intro _; show s.c.current - 1 < stop; omega
+  · intro h'
+    have : s.c.accepting = false ∧ ¬ (s.c.current - 1 ≤ s.c.resume) := by simpa using h'
+    right; show resume < s.c.current - 1; omega
   · intro _; rfl
   · intro x hx; simp at hx
   · exact hleak
@@ -129,14 +137,15 @@ theorem step_inv {stop resume : Nat} (h : WF stop resume) (s : St) (o : Op)
     simp only [step]
     split
     · rename_i hl
-      have hlen := List.length_erase_of_mem hl.1
-      have hpos : 0 < s.pending.length := List.length_pos_of_mem hl.1
+      have hlen := List.length_erase_of_mem hl
+      have hpos : 0 < s.pending.length := List.length_pos_of_mem hl
       constructor
       · exact hi.hstop
       · exact hi.hres
       · simp only [List.length_append, List.length_singleton, hlen]; have := hi.cnt; omega
       · exact hi.le
       · exact hi.acc
+      · exact hi.high
       · exact hi.noWait
       · exact hi.waitOpen
       · exact hi.noLeak
@@ -169,7 +178,7 @@ theorem step_inv {stop resume : Nat} (h : WF stop resume) (s : St) (o : Op)
       · exact hi.fresh
       · exact hi.nodup
     · exact hi
-  | close k =>
+  | close k e =>
     simp only [step]
     split
     · rename_i hk
@@ -185,7 +194,7 @@ theorem step_inv {stop resume : Nat} (h : WF stop resume) (s : St) (o : Op)
       · intro x hx; exact hi.fresh x (List.mem_of_mem_erase hx)
       · exact hi.nodup.erase k
     · exact hi
-  | lclose l =>
+  | lclose l e =>
     simp only [step]
     split
     · exact hi
@@ -196,6 +205,7 @@ theorem step_inv {stop resume : Nat} (h : WF stop resume) (s : St) (o : Op)
       · exact hi.cnt
       · exact hi.le
       · exact hi.acc
+      · exact hi.high
       · intro _; rfl
       · intro x hx; simp at hx
       · exact hi.noLeak
@@ -240,8 +250,8 @@ theorem no_pass_when_stopped (s : St) (o : Op) (ha : s.c.accepting = false) :
     · simp
   | deliver l => simp only [step]; split <;> simp
   | fail l => simp only [step]; split <;> simp
-  | close k => simp only [step]; split <;> simp
-  | lclose l => simp only [step]; split <;> simp
+  | close k e => simp only [step]; split <;> simp [closeOut] <;> cases e <;> simp
+  | lclose l e => simp only [step]; split <;> simp [closeOut] <;> cases e <;> simp
 
 /-- A refusing counter keeps refusing as long as the count stays above `resume`. -/
 theorem stays_stopped {stop resume : Nat} (h : WF stop resume) (s : St) (o : Op)
@@ -282,7 +292,7 @@ theorem stays_stopped {stop resume : Nat} (h : WF stop resume) (s : St) (o : Op)
       have hpos : 0 < s.pending.length := List.length_pos_of_mem hl
       exact hrel _ rfl (by have := hi.cnt; omega) hab
     · exact ha
-  | close k =>
+  | close k e =>
     simp only [step] at hab ⊢
     split
     · rename_i hk
@@ -290,7 +300,7 @@ theorem stays_stopped {stop resume : Nat} (h : WF stop resume) (s : St) (o : Op)
       have hpos : 0 < s.open_.length := List.length_pos_of_mem hk
       exact hrel _ rfl (by have := hi.cnt; omega) hab
     · exact ha
-  | lclose l =>
+  | lclose l e =>
     simp only [step]
     split
     · exact ha
@@ -362,13 +372,13 @@ theorem closed_conn_stays (s : St) (o : Op) (k : Nat) (hk : k ∉ s.open_) (hlt 
     split
     · rw [(hrel _).1, (hrel _).2]; exact ⟨hk, hlt⟩
     · exact ⟨hk, hlt⟩
-  | close j =>
+  | close j e =>
     simp only [step]
     split
     · rw [(hrel _).1, (hrel _).2]
       exact ⟨fun hm => hk (List.mem_of_mem_erase hm), hlt⟩
     · exact ⟨hk, hlt⟩
-  | lclose l =>
+  | lclose l e =>
     simp only [step]
     split
     · exact ⟨hk, hlt⟩
@@ -383,32 +393,261 @@ theorem closed_conn_stays_run (ops : List Op) (s : St) (k : Nat) (hk : k ∉ s.o
     have := closed_conn_stays s o k hk hlt
     exact ih _ this.1 this.2
 
+/-! ## The log characterisation of `isAccepting` -/
+
+/-- Executable form of `StoppedLog`. -/
+def stoppedLogB (stop resume : Nat) : List Nat → Bool
+  | [] => false
+  | n :: older => n == stop || (decide (resume < n) && stoppedLogB stop resume older)
+
+theorem stoppedLogB_iff (stop resume : Nat) (log : List Nat) :
+    stoppedLogB stop resume log = true ↔ StoppedLog stop resume log := by
+  induction log with
+  | nil => simp [stoppedLogB, StoppedLog]
+  | cons n older ih =>
+    simp only [stoppedLogB, Bool.or_eq_true, beq_iff_eq, Bool.and_eq_true, decide_eq_true_eq]
+    constructor
+    · intro h
+      rcases h with h | ⟨h1, h2⟩
+      · exact ⟨[], older, by simp [h], by simp⟩
+      · obtain ⟨r, o, hr, hall⟩ := ih.1 h2
+        refine ⟨n :: r, o, by simp [hr], ?_⟩
+        intro m hm
+        simp only [List.mem_cons] at hm
+        rcases hm with rfl | hm
+        · exact h1
+        · exact hall m hm
+    · intro ⟨r, o, hr, hall⟩
+      cases r with
+      | nil => left; simp at hr; exact hr.1
+      | cons a r' =>
+        right
+        simp only [List.cons_append, List.cons.injEq] at hr
+        obtain ⟨rfl, hr'⟩ := hr
+        exact ⟨hall _ (by simp), ih.2 ⟨r', o, hr', fun m hm => hall m (by simp [hm])⟩⟩
+
+theorem attempt_ctr (t : St) (l : Nat) :
+    (attempt repaired t l).1.c = t.c ∨
+    (t.c.accepting = true ∧ (attempt repaired t l).1.c = t.c.increment.1) := by
+  simp only [attempt, repaired, if_true]
+  split
+  · exact Or.inl rfl
+  · split
+    · rename_i hinc
+      rw [inc_snd] at hinc
+      exact Or.inr ⟨hinc, rfl⟩
+    · exact Or.inl rfl
+
+/-- Every step leaves the counter alone, or is one successful `increment`, or one `decrement` of a
+positive counter. -/
+theorem step_ctr {stop resume : Nat} (s : St) (o : Op) (hi : Inv stop resume s) :
+    (step repaired s o).1.c = s.c ∨
+    (s.c.accepting = true ∧ (step repaired s o).1.c = s.c.increment.1) ∨
+    (0 < s.c.current ∧ (step repaired s o).1.c = s.c.decrement) := by
+  have hrel : ∀ t : St, t.c = s.c → (release repaired t).c = s.c.decrement := by
+    intro t ht; simp [release, wake, repaired, ht]
+  cases o with
+  | accept l =>
+    rcases attempt_ctr s l with h | h
+    · exact Or.inl h
+    · exact Or.inr (Or.inl h)
+  | recheck l =>
+    simp only [step]
+    split
+    · rcases attempt_ctr { s with woken := s.woken.erase l } l with h | h
+      · exact Or.inl h
+      · exact Or.inr (Or.inl h)
+    · exact Or.inl rfl
+  | deliver l => simp only [step]; split <;> exact Or.inl rfl
+  | fail l =>
+    simp only [step]
+    split
+    · rename_i hl
+      have hpos : 0 < s.pending.length := List.length_pos_of_mem hl
+      exact Or.inr (Or.inr ⟨by have := hi.cnt; omega, hrel _ rfl⟩)
+    · exact Or.inl rfl
+  | close k e =>
+    simp only [step]
+    split
+    · rename_i hk
+      have hpos : 0 < s.open_.length := List.length_pos_of_mem hk
+      exact Or.inr (Or.inr ⟨by have := hi.cnt; omega, hrel _ rfl⟩)
+    · exact Or.inl rfl
+  | lclose l e =>
+    simp only [step]
+    split
+    · exact Or.inl rfl
+    · simp only [wake]; exact Or.inl trivial
+
+theorem step_log {stop resume : Nat} (h : WF stop resume) (s : St) (o : Op)
+    (hi : Inv stop resume s) (log : List Nat)
+    (hl : s.c.accepting = !stoppedLogB stop resume log) :
+    (step repaired s o).1.c.accepting =
+      !stoppedLogB stop resume (count (step repaired s o).1 :: log) := by
+  obtain ⟨h0, hrs, hlt⟩ := h
+  have hi' := step_inv ⟨h0, hrs, hlt⟩ s o hi
+  have hcnt : count (step repaired s o).1 = (step repaired s o).1.c.current := by
+    unfold count; exact hi'.cnt.symm
+  rw [hcnt]
+  have hle := hi.le
+  have hst := hi.hstop
+  have hre := hi.hres
+  rcases step_ctr s o hi with hc | ⟨ha, hc⟩ | ⟨hpos, hc⟩
+  · rw [hc]
+    simp only [stoppedLogB]
+    cases ha : s.c.accepting with
+    | true =>
+      have h1 := hi.acc ha
+      have h2 : stoppedLogB stop resume log = false := by rw [ha] at hl; simpa using hl.symm
+      have : (s.c.current == stop) = false := by simp; omega
+      simp [h2, this]
+    | false =>
+      have h2 : stoppedLogB stop resume log = true := by rw [ha] at hl; simpa using hl.symm
+      rcases hi.high ha with h3 | h3
+      · simp [h3]
+      · simp [h2, h3]
+  · have h1 := hi.acc ha
+    have h2 : stoppedLogB stop resume log = false := by rw [ha] at hl; simpa using hl.symm
+    rw [hc, inc_fst s.c ha (by omega) (by omega)]
+    simp only [stoppedLogB, h2, Bool.and_false, Bool.or_false]
+    by_cases h3 : s.c.current + 1 < s.c.stop
+    · have : (s.c.current + 1 == stop) = false := by simp; omega
+      simp [h3, this]
+    · have : (s.c.current + 1 == stop) = true := by simp; omega
+      simp [h3, this]
+  · rw [hc, dec_eq s.c hpos (by omega)]
+    simp only [stoppedLogB]
+    have h4 : (s.c.current - 1 == stop) = false := by simp; omega
+    rw [h4, hl, hre]
+    by_cases h5 : s.c.current - 1 ≤ resume
+    · have : ¬ (resume < s.c.current - 1) := by omega
+      simp [h5, this]
+    · have : resume < s.c.current - 1 := by omega
+      simp [h5, this]
+
+theorem run_log {stop resume : Nat} (h : WF stop resume) (ops : List Op) (s : St)
+    (hi : Inv stop resume s) (log : List Nat)
+    (hl : s.c.accepting = !stoppedLogB stop resume log) :
+    (run repaired s ops).c.accepting = !stoppedLogB stop resume (hist repaired s log ops) := by
+  induction ops generalizing s log with
+  | nil => exact hl
+  | cons o r ih => exact ih _ (step_inv h s o hi) _ (step_log h s o hi log hl)
+
+/-! ## Woken acceptors drain -/
+
+theorem attempt_woken (v : Variant) (t : St) (l : Nat) : (attempt v t l).1.woken = t.woken := by
+  unfold attempt
+  split
+  · split
+    · rfl
+    · split <;> rfl
+  · split
+    · split <;> rfl
+    · split <;> rfl
+
 /-! ## Pipeline -/
 
-theorem pump_le (fuel : Nat) (p : Pipe) (h : p.inflight ≤ p.n) :
-    (Pipe.pump fuel p).inflight ≤ (Pipe.pump fuel p).n ∧ (Pipe.pump fuel p).n = p.n := by
+/-- Invariant of one connection: every running worker holds exactly one token, and the channel never
+holds more than its capacity. -/
+def Pipe.Ok (p : Pipe) : Prop :=
+  p.running = p.tokens ∧ p.tokens ≤ p.n ∧ (p.dead = true → p.blocked = false)
+
+theorem pump_ok (fuel : Nat) (p : Pipe) (h : p.Ok) :
+    (Pipe.pump fuel p).Ok ∧ (Pipe.pump fuel p).n = p.n := by
   induction fuel generalizing p with
   | zero => exact ⟨h, rfl⟩
   | succ f ih =>
     unfold Pipe.pump
     split
+    · exact ⟨h, rfl⟩
     · split
-      · rename_i hlt
-        have := ih { p with blocked := false, inflight := p.inflight + 1 } (by show p.inflight + 1 ≤ p.n; omega)
-        exact this
-      · exact ⟨h, rfl⟩
-    · split
-      · exact ⟨h, rfl⟩
-      · exact ih { p with queued := p.queued - 1, blocked := true } h
+      · split
+        · rename_i hlt
+          exact ih { p with blocked := false, tokens := p.tokens + 1, running := p.running + 1 }
+            ⟨by show p.running + 1 = p.tokens + 1; have := h.1; omega,
+             by show p.tokens + 1 ≤ p.n; omega, fun _ => rfl⟩
+        · exact ⟨h, rfl⟩
+      · split
+        · exact ⟨h, rfl⟩
+        · rename_i hd _ _
+          exact ih { p with queued := p.queued - 1, blocked := true }
+            ⟨h.1, h.2.1, fun hd' => absurd hd' hd⟩
 
-theorem pstep_le (p : Pipe) (o : POp) (h : p.inflight ≤ p.n) :
-    (p.step o).inflight ≤ (p.step o).n ∧ (p.step o).n = p.n := by
+theorem pstep_ok (p : Pipe) (o : POp) (h : p.Ok) : (p.step o).Ok ∧ (p.step o).n = p.n := by
   cases o with
-  | query => exact pump_le _ { p with queued := p.queued + 1 } h
+  | query => exact pump_ok _ { p with queued := p.queued + 1 } h
   | done =>
     simp only [Pipe.step]
     split
     · exact ⟨h, rfl⟩
-    · exact pump_le _ { p with inflight := p.inflight - 1 } (by show p.inflight - 1 ≤ p.n; omega)
+    · rename_i hr
+      exact pump_ok _ { p with running := p.running - 1, tokens := p.tokens - 1 }
+        ⟨by show p.running - 1 = p.tokens - 1; have := h.1; omega,
+         by show p.tokens - 1 ≤ p.n; have := h.2.1; omega, h.2.2⟩
+  | timeout =>
+    simp only [Pipe.step]
+    split
+    · exact ⟨⟨h.1, h.2.1, fun _ => rfl⟩, rfl⟩
+    · exact ⟨h, rfl⟩
+
+theorem prun_ok (ops : List POp) (p : Pipe) (h : p.Ok) :
+    (Pipe.run p ops).Ok ∧ (Pipe.run p ops).n = p.n := by
+  induction ops generalizing p with
+  | nil => exact ⟨h, rfl⟩
+  | cons o r ih =>
+    have h1 := pstep_ok p o h
+    have h2 := ih (p.step o) h1.1
+    exact ⟨h2.1, h2.2.trans h1.2⟩
+
+/-- With enough fuel the reader loop really runs until it blocks. -/
+theorem pump_settled (fuel : Nat) (p : Pipe)
+    (hf : 2 * p.queued + (if p.blocked then 1 else 0) < fuel) : (Pipe.pump fuel p).Settled := by
+  induction fuel generalizing p with
+  | zero => omega
+  | succ f ih =>
+    unfold Pipe.pump
+    split
+    · rename_i hd; exact Or.inl hd
+    · split
+      · rename_i hb
+        split
+        · apply ih
+          simp only [hb, if_true] at hf
+          show 2 * p.queued + (if false = true then 1 else 0) < f
+          simp; omega
+        · rename_i hn; exact Or.inr (Or.inl ⟨hb, by omega⟩)
+      · rename_i hb
+        have hb' : p.blocked = false := by simpa using hb
+        split
+        · rename_i hq; exact Or.inr (Or.inr ⟨hb', hq⟩)
+        · rename_i hq
+          apply ih
+          simp only [hb', Bool.false_eq_true, if_false] at hf
+          show 2 * (p.queued - 1) + (if true = true then 1 else 0) < f
+          simp; omega
+
+theorem pstep_settled (p : Pipe) (o : POp) (h : p.Settled) : (p.step o).Settled := by
+  cases o with
+  | query =>
+    apply pump_settled
+    show 2 * (p.queued + 1) + _ < 2 * p.queued + 4
+    split <;> omega
+  | done =>
+    simp only [Pipe.step]
+    split
+    · exact h
+    · apply pump_settled
+      show 2 * p.queued + _ < 2 * p.queued + 4
+      split <;> omega
+  | timeout =>
+    simp only [Pipe.step]
+    split
+    · exact Or.inl rfl
+    · exact h
+
+theorem prun_settled (ops : List POp) (p : Pipe) (h : p.Settled) : (Pipe.run p ops).Settled := by
+  induction ops generalizing p with
+  | nil => exact h
+  | cons o r ih => exact ih _ (pstep_settled p o h)
 
 end Agd.ConnLimit
